@@ -28,6 +28,15 @@ Streams (all randomness from the seed):
               with an exact-frequency backend == local evaluation; from_tk(to_tk(c)) evaluates to
               what the exported circuit means; from_tk of random pytket circuits == pytket's unitary
               / the simulated distribution
+  batch       (the property, batch calling conventions of the backend path) one to four circuits in ONE
+              call `c.eval(*others, backend=b)`, `c.get_counts(*others, backend=b)` /
+              `Circuit.get_counts(c, *others, backend=b)`, `t.get_counts(*ts, backend=b)` (tk.Circuit level,
+              before post-processing), members that differ in the value / the wire / the number of their
+              post-selections, in scalar, in post-processing, in number of bits (T.gen_batch, own generator
+              stream): every member's result == the exact simulation of its own export, post-selected with
+              its own post-selection, times its own scalar, through its own post-processing == (one member
+              of each batch, by budget) its local mixed evaluation; members are circuits inside the proved
+              fragment whose real export equals the model's (compared here too, stream `totk`)
 """
 import os
 import random
@@ -153,7 +162,12 @@ def run(tier, seed, replay=None):
                 "post-selections / swaps at arbitrary depths, ~6% boxes outside the exportable set; "
                 "non-trivial = export succeeds with at least one preparation or measurement not at the "
                 "right end of its register list, or a swap, or a non-empty post-processing; plus random "
-                "pytket circuits over H S T X Y Z CX CZ SWAP Rx Rz CRz Measure")
+                "pytket circuits over H S T X Y Z CX CZ SWAP Rx Rz CRz Measure; plus 7 pinned and 10 (quick) / "
+                "150 (thorough) random BATCHES of one to four circuits evaluated in one call through the exact "
+                "backend (eval / get_counts / Circuit.get_counts / tk.Circuit.get_counts with *others, n_shots "
+                "and seed passed or not), whose members differ in the value, the wire or the number of their "
+                "post-selections, in scalar, in classical post-processing, in number of bits or qubits, in "
+                "nothing, or are unrelated random circuits (non-trivial batch = at least two members that differ)")
     rep.partial = [
         "to_tk_refines is proved inside the fragment delimited by `violation` (no Bits left of a "
         "non-post-selected register, no Discard of bits, no override_bits Measure after classical "
@@ -169,6 +183,11 @@ def run(tier, seed, replay=None):
         "meaning of tket ops and of the imported boxes, pytket's rename_units/add_blank_wires/get_commands "
         "order, Circuit.upgrade and the backend path are outside the model: they rest on the oracle of this "
         "check",
+        "the backend path (tk.Circuit.get_counts tk.py:100-136: normalisation, post-selection, scaling of every "
+        "circuit of a batch; Circuit.eval / Circuit.get_counts backend branch circuit.py:254-265, 319-331) has NO "
+        "Lean model: single calls and batch calls (stream `batch`) are checked by the oracle only — every member "
+        "of a batch against the exact simulation of its own export and against its local evaluation; the batch "
+        "defect F50 (every member scaled by the first circuit's scalar) is a known finding on /repo",
     ]
     rep.assumptions = [
         "pytket's get_unitary/get_statevector define the meaning of tket ops (the harness simulator is "
@@ -186,7 +205,9 @@ def run(tier, seed, replay=None):
                   backend=30 if quick else 300,     # + eval / get_counts through the exact backend
                   chain=24 if quick else 200,       # circuits of ps_chain_prefix (meaning of the export for all)
                   chain_full=8 if quick else 40,    # ... of which with import and backend
-                  max_units=5 if quick else 6)      # size limit for evaluating imported circuits
+                  max_units=5 if quick else 6,      # size limit for evaluating imported circuits
+                  batches=10 if quick else 150,     # random batches through the exact backend (+ 7 pinned)
+                  batch_local=6 if quick else 157)    # ... of which with the local evaluation of one member
     rng = random.Random(seed)
     drv = Driver()
     try:
@@ -197,6 +218,7 @@ def run(tier, seed, replay=None):
         import_ps_stream(rep, rng, drv, 120 if quick else 1500, 24 if quick else 400, Circuit,
                          4 if quick else budget["max_units"])
         malformed_stream(rep, rng, drv, 30 if quick else 300, Circuit)
+        batch_stream(rep, drv, budget["batches"], budget["batch_local"], Circuit, quick)
     finally:
         drv.close()
     return rep.finish()
@@ -581,6 +603,187 @@ def backend_checks(rep, c, t, ref, e2e_ok, sig, case):
         rep.count("backend_counts_checked")
     except Exception as exc:
         rep.fail("backend:get_counts_raises:" + err_class(exc), case, repr(exc)[:200])
+
+
+# --------------------------------------------------------------------------- batches through a backend
+
+_ENT = [(("ket", (0, 0)), 0), (("rot", "Rx", 5), 0), (("gate", "CX"), 0)]
+_HH = [(("ket", (0, 0)), 0), (("gate", "H"), 0), (("gate", "H"), 1)]
+# pinned batches, replayed on every run (all members inside the proved fragment)
+BATCH_WITNESSES = [
+    # post-selections of different VALUE: ... >> Bra(0) @ Measure()  with  ... >> Bra(1) @ Measure()  (seeded C13-r4m2)
+    [("", _ENT + [(("bra", (0,)), 0), (("measure", 1, 1, 0), 0)]),
+     ("", _ENT + [(("bra", (1,)), 0), (("measure", 1, 1, 0), 0)])],
+    # ... on a different WIRE (tket bit 1 instead of bit 0), three circuits
+    [("", _ENT + [(("bra", (1,)), 0), (("measure", 1, 1, 0), 0)]),
+     ("", _ENT + [(("bra", (0,)), 0), (("measure", 1, 1, 0), 0)]),
+     ("", _ENT + [(("measure", 1, 1, 0), 0), (("bra", (1,)), 1)])],
+    # different NUMBER of post-selected qubits: one, none, two
+    [("", _HH + [(("bra", (0,)), 0), (("measure", 1, 1, 0), 0)]),
+     ("", _HH + [(("measure", 2, 1, 0), 0)]),
+     ("", _HH + [(("bra", (0, 1)), 0)])],
+    # different SCALARS (F50): Ket(0) >> H >> Measure(), scalar(0.5) @ the same, MixedScalar(4) @ Ket(0) >> X >> Measure()
+    [("", [(("ket", (0,)), 0), (("gate", "H"), 0), (("measure", 1, 1, 0), 0)]),
+     ("", [(("scalar", 0, 0), 0), (("ket", (0,)), 0), (("gate", "H"), 0), (("measure", 1, 1, 0), 0)]),
+     ("", [(("scalar", 7, 1), 0), (("ket", (0,)), 0), (("gate", "X"), 0), (("measure", 1, 1, 0), 0)])],
+    # different POST-PROCESSING and number of bits: none, NOT, XOR of two measured bits
+    [("", [(("ket", (1,)), 0), (("measure", 1, 1, 0), 0)]),
+     ("", [(("ket", (1,)), 0), (("measure", 1, 1, 0), 0), (("cgate", "NOT"), 0)]),
+     ("", [(("ket", (1, 0)), 0), (("gate", "H"), 1), (("measure", 2, 1, 0), 0), (("cgate", "XOR"), 0)])],
+    # a batch of ONE circuit through the keyword convention (the result is not a list)
+    [("", _ENT + [(("measure", 1, 1, 0), 0), (("bra", (1,)), 1)])],
+    # the same scalar on every member, post-selections differ
+    [("", [(("scalar", 1, 0), 0)] + _ENT + [(("bra", (0,)), 1), (("measure", 1, 1, 0), 0)]),
+     ("", [(("scalar", 1, 0), 0)] + _ENT + [(("bra", (1,)), 1), (("measure", 1, 1, 0), 0)])],
+]
+
+
+def as_list(results, k):
+    """eval / get_counts return the bare result for one circuit, a list for several (circuit.py:265, 331)."""
+    return [results] if k == 1 and not isinstance(results, list) else list(results)
+
+
+def batch_stream(rep, drv, n, n_local, Circuit, quick=True):
+    """Batches of one to four circuits through the exact backend in one call (see the module docstring)."""
+    brng = random.Random(1000003 * rep.seed + 1313)
+    cache = {}
+
+    def model_of(spec):
+        tok = T.spec_tokens(spec)
+        if tok not in cache:
+            cache[tok] = drv.ask_many(["totk " + tok])[0]
+        return cache[tok]
+
+    def inside(spec):
+        if exotic(spec):
+            return False
+        head, fields = T.parse_fields(model_of(spec))
+        return head == "ok" and fields.get("viol", "-").split("@")[0] == "-"
+
+    conventions = ["eval", "get_counts", "Circuit.get_counts", "tk.get_counts"]
+    for b in range(len(BATCH_WITNESSES) + n):
+        info = {}
+        if b < len(BATCH_WITNESSES):
+            specs, info = [s for s in BATCH_WITNESSES[b] if inside(s)], dict(mode="witness")
+            if len(specs) != len(BATCH_WITNESSES[b]):
+                rep.disagree("batch", dict(batch=repr(BATCH_WITNESSES[b])), "pinned batch inside the fragment",
+                             "the model puts a member outside")
+        else:
+            specs = T.gen_batch(random.Random(brng.getrandbits(64)), ok=inside, info=info)
+        rep.count("batch:mode=" + info["mode"])
+        if not specs:
+            rep.count("batch:empty")
+            continue
+        # every batch: eval and the tk.Circuit level; every other batch one of the two spellings of get_counts
+        convs = ["eval", "tk.get_counts"] + ([conventions[1 + (b // 2) % 2]] if b % 2 == 0 or not quick else [])
+        params = [dict(), dict(n_shots=1000), dict(n_shots=2 ** 13, seed=7), dict(seed=0)][b % 4]
+        n_local = batch_case(rep, specs, info, convs, params, n_local, model_of, Circuit)
+
+
+def batch_case(rep, specs, info, convs, params, n_local, model_of, Circuit):
+    k = len(specs)
+    circuits = [T.build(s) for s in specs]
+    case = dict(batch=[repr(s) for s in specs], circuits=[str(c) for c in circuits], mode=info["mode"],
+                params=repr(params))
+    rep.count("batch:size=%d" % k)
+    # ---- every member alone: export (== model, the correspondence on this generator's circuits too),
+    #      the exact simulation of the export with its OWN side data, the local evaluation
+    ts, want, want_sel, quirk, quirk_sel = [], [], [], [], []
+    for i, (spec, c) in enumerate(zip(specs, circuits)):
+        one = dict(case, member=i)
+        try:
+            t = c.to_tk()
+        except Exception as exc:
+            rep.fail("to_tk:raises:" + err_class(exc), one, "to_tk raises on a circuit inside the proved fragment: %r" % exc)
+            return n_local
+        head, fields = T.parse_fields(model_of(spec))
+        real, mine = "ok " + T.real_export_tokens(t), "ok " + T.model_export_tokens(fields)
+        if real != mine:
+            rep.disagree("totk", one, real[:600], mine[:600])
+        rep.count("batch_members_exported")
+        try:
+            raw = T.simulate_tk(t)
+            want.append(T.exported_distribution(t, raw))
+            want_sel.append(T.selected_distribution(t, raw))
+        except Exception as exc:
+            rep.fail("to_tk:export_has_no_meaning", one, "exported %r has no meaning (%s)" % (t, err_class(exc)))
+            return n_local
+        ts.append(t)
+        if n_local > 0 and i == min(1, k - 1):     # one member of every batch while the budget lasts
+            n_local -= 1
+            try:
+                ref = reference(c)
+            except Exception as exc:
+                if is_f3(exc) and has_override(spec):
+                    rep.count("batch_local_f3")
+                    continue
+                rep.fail("reference_eval_raises:" + err_class(exc), one, repr(exc)[:200])
+                continue
+            rep.count("batch_members_local")
+            if not close(want[-1], ref):
+                rep.fail("to_tk:meaning", one, "exported %r means %s, the circuit evaluates to %s (inside the "
+                         "proved fragment)" % (t, show(want[-1]), show(ref)))
+                return n_local
+    for i, t in enumerate(ts):      # what a member would give with the scalar of the FIRST circuit (F50)
+        raw = T.simulate_tk(t)
+        quirk.append(T.exported_distribution(t, raw, scalar=ts[0].scalar))
+        quirk_sel.append(T.selected_distribution(t, raw, scalar=ts[0].scalar))
+    differs = [name for name, key in [
+        ("post_selection", lambda t: sorted((int(a), int(b)) for a, b in t.post_selection.items())),
+        ("n_post_selected", lambda t: len(t.post_selection)),
+        ("scalar", lambda t: complex(t.scalar)),
+        ("post_processing", lambda t: T.pp_tokens(t.post_processing)),
+        ("n_bits", lambda t: len(t.bits)),
+        ("n_qubits", lambda t: t.n_qubits)] if any(key(t) != key(ts[0]) for t in ts[1:])]
+    for name in differs:
+        rep.count("batch:differs=" + name)
+    if not differs:
+        rep.count("batch:differs=nothing")
+    rep.case("batch " + " | ".join(T.spec_tokens(s) for s in specs), k >= 2 and bool(differs))
+    rep.sample(dict(batch=case["circuits"], mode=info["mode"]))
+
+    def verdict(conv, i, good, same_with_first_scalar, text):
+        if good:
+            return
+        one = dict(case, convention=conv, member=i)
+        if i > 0 and complex(ts[i].scalar) != complex(ts[0].scalar) and same_with_first_scalar:
+            # tk.py:132-135 multiplies every member's counts by `self.scalar`, the FIRST circuit's (F50)
+            rep.fail("backend:batch_scalar_of_first", one, text + " — that is member %d's distribution times "
+                     "the scalar %s of member 0 instead of its own %s" % (i, ts[0].scalar, ts[i].scalar))
+        else:
+            rep.fail("backend:batch_" + conv, one, text)
+
+    be = T.ExactBackend()
+    for conv in convs:
+        rep.count("batch:convention=" + conv)
+        try:
+            if conv == "eval":
+                out = as_list(circuits[0].eval(*circuits[1:], backend=be, **params), k)
+                got = [r.array for r in out]
+            elif conv == "get_counts":
+                got = as_list(circuits[0].get_counts(*circuits[1:], backend=be, **params), k)
+            elif conv == "Circuit.get_counts":
+                got = as_list(Circuit.get_counts(circuits[0], *circuits[1:], backend=be, **params), k)
+            else:
+                got = list(ts[0].get_counts(*ts[1:], backend=be, **params))
+        except Exception as exc:
+            rep.fail("backend:batch_%s_raises:%s" % (conv, err_class(exc)), dict(case, convention=conv), repr(exc)[:200])
+            continue
+        if len(got) != k:
+            rep.fail("backend:batch_" + conv, dict(case, convention=conv), "%d results for %d circuits" % (len(got), k))
+            continue
+        for i in range(k):
+            if conv == "eval":
+                verdict(conv, i, close(got[i], want[i]), close(got[i], quirk[i]),
+                        "%s(*others, backend) gives %s for member %d; alone, and by exact simulation of its "
+                        "export, it is %s" % (conv, show(got[i]), i, show(want[i])))
+            else:
+                w, q = (want_sel, quirk_sel) if conv == "tk.get_counts" else (want, quirk)
+                verdict(conv, i, counts_close(got[i], counts_of(w[i])), counts_close(got[i], counts_of(q[i])),
+                        "%s(*others, backend) gives %s for member %d; alone, and by exact simulation of its "
+                        "export, it is %s" % (conv, sorted(got[i].items()), i, sorted(counts_of(w[i]).items())))
+            rep.count("batch_results_checked")
+    return n_local
 
 
 # --------------------------------------------------------------------------- import of tket circuits
